@@ -453,7 +453,7 @@ func (t *Tr) dispatchFacts(c *ssa.CallCommon, args []ssa.Value, rts []Term, old 
 				if err != nil {
 					continue
 				}
-				t.assumeCl(Cl{fmt.Sprintf("(=> %s %s)", guard, s.Q), fmt.Sprintf("(=> %s %s)", guard, s.U)}, false)
+				t.assumeCl(Cl{Q: fmt.Sprintf("(=> %s %s)", guard, s.Q), U: fmt.Sprintf("(=> %s %s)", guard, s.U)}, false)
 			}
 		}
 	}
@@ -472,6 +472,7 @@ func closureFn(v ssa.Value) *ssa.Function {
 // applyModifies havocs what the contract says the callee may write.
 func (t *Tr) applyModifies(ct *Contract, env *Env, key string) {
 	if ct.Pure {
+		t.bumpNext(t.cur) // a pure function may still allocate (its result)
 		return
 	}
 	if !ct.HasMod {
@@ -567,29 +568,26 @@ func (t *Tr) havocLocation(m Clause, env *Env, key string) {
 			}
 			return
 		}
-		base, err := env.evalAny(x.X)
-		_ = base
-		if err != nil {
-			efail("%s:%d: modifies of %s: %v", m.File, m.Line, key, err)
+		var fv Val
+		func() {
+			defer func() {
+				if r := recover(); r != nil {
+					if ee, ok := r.(evalErr); ok {
+						efail("%s:%d: modifies of %s: %s", m.File, m.Line, key, string(ee))
+					}
+					panic(r)
+				}
+			}()
+			fv = env.eval(x)
+		}()
+		switch {
+		case fv.Loc != nil:
+			t.havocAddr(fv.Loc)
+		case fv.From != nil:
+			t.havocAddr(fv.From)
+		default:
+			efail("%s:%d: modifies %s: not a field location", m.File, m.Line, m.Src)
 		}
-		bv := env.eval(x.X)
-		var sty types.Type
-		var obj string
-		if bv.Loc != nil && bv.Loc.Kind == aStruct {
-			sty, obj = bv.Ty, bv.Loc.Obj
-		} else {
-			st, _, isPtr := derefStruct(base.Ty)
-			if !isPtr {
-				efail("%s:%d: modifies %s: not a field of a pointer", m.File, m.Line, m.Src)
-			}
-			sty, obj = st, base.T.S
-		}
-		i := findField(sty.Underlying().(*types.Struct), x.Sel)
-		if i < 0 {
-			efail("%s:%d: modifies %s: no such field %q in %v", m.File, m.Line, m.Src, x.Sel, sty)
-		}
-		a := t.fieldAddr(sty, i, obj)
-		t.havocAddr(a)
 	case *SDeref:
 		p, err := env.evalAny(x.X)
 		if err != nil {
